@@ -241,3 +241,77 @@ def season_aggregate_calendar(chk, prog, rule: str):
                               loc=fi.loc(c))
     chk.notes[rule + "_season_aggregates"] = n
     return n
+
+
+# --------------------------------------------------------------------------------------------- adjusted field capacity: two implementations
+
+class _CanonFC(ast.NodeTransformer):
+    """spell-independent form of the adjusted-field-capacity loop: hydraulic properties of the current compartment -> FC / S,
+    the compartment centre -> Z, the water-table depth (any name / attribute whose last component contains 'gw') -> G"""
+    def visit_Subscript(self, n):
+        t = ast.unparse(n)
+        if "zMid" in t or "zmid" in t.lower():
+            return ast.Name(id="Z", ctx=ast.Load())
+        v = n.value
+        if isinstance(v, ast.Attribute) and v.attr in ("th_fc", "th_s"):
+            return ast.Name(id="FC" if v.attr == "th_fc" else "S", ctx=ast.Load())
+        return self.generic_visit(n)
+
+    def visit_Attribute(self, n):
+        if n.attr in ("th_fc", "th_s"):
+            return ast.Name(id="FC" if n.attr == "th_fc" else "S", ctx=ast.Load())
+        if "gw" in n.attr.lower():
+            return ast.Name(id="G", ctx=ast.Load())
+        return self.generic_visit(n)
+
+    def visit_Name(self, n):
+        if "gw" in n.id.lower():
+            return ast.Name(id="G", ctx=n.ctx)
+        return n
+
+    def visit_BinOp(self, n):
+        n = self.generic_visit(n)
+        if isinstance(n.op, ast.Pow) and isinstance(n.right, ast.Constant) and n.right.value == 2:
+            import copy
+            return ast.BinOp(left=n.left, op=ast.Mult(), right=copy.deepcopy(n.left))
+        return n
+
+
+def _fc_shape(fn_node: ast.AST):
+    """(tests, defining expressions) of the loop that computes the adjusted field capacity"""
+    import copy
+    loops = [w for w in ast.walk(fn_node) if isinstance(w, ast.While) and any(isinstance(x, ast.Name) and x.id == "Xmax" for x in ast.walk(w))]
+    if len(loops) != 1:
+        return None
+    w = loops[0]
+    tests, defs = [], []
+    for x in ast.walk(w):
+        if isinstance(x, (ast.If, ast.While)):
+            tests.append(ast.unparse(_CanonFC().visit(copy.deepcopy(x.test))))
+        if isinstance(x, ast.Assign) and isinstance(x.targets[0], ast.Name) and x.targets[0].id in ("Xmax", "pF", "dV", "dFC"):
+            defs.append(x.targets[0].id + " = " + ast.unparse(_CanonFC().visit(copy.deepcopy(x.value))))
+        if isinstance(x, ast.Assign) and isinstance(x.targets[0], ast.Subscript) and isinstance(x.targets[0].value, ast.Name) and "fc" in x.targets[0].value.id.lower():
+            defs.append("ADJ[.] = " + ast.unparse(_CanonFC().visit(copy.deepcopy(x.value))))
+    norm_pow = lambda s: s
+    return sorted(norm_pow(t) for t in tests), sorted(norm_pow(d) for d in defs)
+
+
+def adjusted_fc_agreement(chk, prog, rule: str):
+    """the adjusted field capacity is computed twice - at initialisation (read_model_initial_conditions) and every day
+    (check_groundwater_table); after renaming, the two loops have the same tests and the same defining expressions"""
+    a = prog.find_func("check_groundwater_table")
+    b = prog.find_func("read_model_initial_conditions")
+    sa_, sb_ = _fc_shape(a.node), _fc_shape(b.node)
+    if sa_ is None or sb_ is None:
+        raise AnalysisError("adjusted field capacity: one of the two implementations (loop over compartments with Xmax) vanished")
+    chk.fn(a.key); chk.fn(b.key)
+    for label, xa, xb in (("tests", sa_[0], sb_[0]), ("defining expressions", sa_[1], sb_[1])):
+        only_a = [x for x in xa if x not in xb]
+        only_b = [x for x in xb if x not in xa]
+        construct = f"adjusted field capacity: {label} of the daily and the initialisation implementation"
+        if not only_a and not only_b:
+            chk.ok(rule, f"{a.module}:{a.qualname}", construct, f"{len(xa)} {label}, identical after renaming")
+        else:
+            chk.violation(rule, f"{a.module}:{a.qualname}", construct,
+                          f"the two implementations differ: only daily {only_a}; only initialisation {only_b} - the adjusted field capacity of day 1 "
+                          "differs from the one the initial water content was laid out with", loc=a.loc())
